@@ -1932,7 +1932,9 @@ def propagate_callable_locals(fn: ast.FunctionDef, helper_names) -> bool:
                         for y in ast.walk(fn)):
             return True       # a bound method picked once (`add = self._add_a if c else self._add_b`) and called later
         if isinstance(v, ast.IfExp):
-            return callable_value(v.body) and callable_value(v.orelse)
+            # (a conditional between whole rows is left to the case split, which reads the rest once per row)
+            return callable_value(v.body) and callable_value(v.orelse) and \
+                not any(isinstance(y, ast.Tuple) for y in ast.walk(v))
         if isinstance(v, ast.Lambda):
             return True
         if isinstance(v, ast.Tuple) and v.elts and all(callable_value(e) for e in v.elts):
